@@ -163,6 +163,14 @@ class FuncC:
         self.ghost_entry_l.append(stmt)
         return self
 
+    def updates_arg(self, *params):
+        """(library contracts) these container arguments are updated in place: in `ensures` the parameter name denotes the new value,
+        old(<param>) the value passed in"""
+        if not hasattr(self, "updates"):
+            self.updates = []
+        self.updates.extend(params)
+        return self
+
     def ghost_at_write(self, field, stmt):
         """ghost assignment executed together with (just before) every code write of attribute `field` in this function; the
         value being written is visible as `_value` (atomic update of a real flag and its ghost shadow)"""
